@@ -1,0 +1,14 @@
+//go:build verif
+
+package code128
+
+// Hook for the verification harness in /verif (build tag `verif` only).
+
+// VerifCodeIndexList returns the symbol indexes getCodeIndexList chooses (one byte each), nil if it refuses.
+func VerifCodeIndexList(content string) []byte {
+	bl := getCodeIndexList(strToRunes(content))
+	if bl == nil {
+		return nil
+	}
+	return bl.GetBytes()
+}
